@@ -434,6 +434,29 @@ def f6(repo: Repo) -> RuleResult:
         for a, b in holes:
             # a name followed directly by a number or another name: names may end in digits
             res.bad(Finding("F6", f.rel, f.node.lineno, f"CFormatter.{name}", shape, f"`{a}` and `{b}` are concatenated without a separator: two different (name, number) pairs can give the same C function name", witness="message M1 { byte[2] a = 1 } and message M { byte[2] a = 11 }", tag=f"{name}:adjacent"))
+    # Python / Go: per-definition helper functions are named with the definition's generated name as it is;
+    # a case conversion on top of it is not injective (Link_State and LinkState both give link_state)
+    from .emit import formatter_returns as _fr
+
+    for cls_, rel_ in (("PyFormatter", "impls/py/formatter.py"), ("GoFormatter", "impls/go/formatter.py")):
+        c_ = m.cls(cls_, rel_)
+        for name in sorted({n_ for k_ in m.mro(c_) for n_ in k_.methods}):
+            if not (name.startswith("format_processor_name") or name in ("formart_default_factory_alias", "formart_default_factory_message")):
+                continue
+            fdef = m.lookup(c_, name)
+            if fdef is None or "raise NotImplementedError" in src_of(fdef.node):
+                continue
+            try:
+                texts = _fr(repo, rel_, cls_, name, braces=True, inline=lambda x: not x.startswith("format_") or x in ("format_name_related_to_definition", "format_processor_name"))
+            except Inconclusive:
+                continue  # not a name template (returns another formatter's text)
+            for t_ in texts:
+                holes = re.findall(r"\{((?:[^{}]|\{[^{}]*\})*)\}", t_)
+                conv = [h_ for h_ in holes if re.match(r"(snake_case|upper_case|pascal_case|keep_case)\(", h_) or re.search(r"\.(lower|upper|title|capitalize|casefold)\(\)$", h_)]
+                res.inst(function=f"{cls_}.{name}", template=t_[:160], converted=conv)
+                for h_ in conv:
+                    if "format_definition_name" in h_ or "_name(" in h_:
+                        res.bad(Finding("F6", fdef.rel, fdef.node.lineno, f"{cls_}.{name}", t_[:200], f"the helper function's name applies `{h_.split('(')[0] if '(' in h_.split('.')[0] else h_.rsplit('.', 1)[-1]}` to the definition's generated name: two different definitions (a nested Link.State, flattened to Link_State, and a top-level LinkState) get the same function name and the later definition silently replaces the earlier", witness="message Link { enum State : uint2 {} }  enum LinkState : uint8 {}", tag=f"{name}:converted-name"))
     return res
 
 
